@@ -221,6 +221,22 @@ def gen_cases(tier, seed):
                                                (c_, [('transition', [('from', [AB], False), ('to', 'Idle')]), ('after', ['log'], True)]),
                                                (b_, [('transition', [('from', ['Idle'], False), ('to', A)])])], True)]})
                 kk += 1
+    # hook names that differ only in case or in the snake_case form (`Ok`/`ok`, `Trace`/`trace`, `S`/`s`) side by side
+    kk = 0
+    for (h1, h2) in (('Ok', 'ok'), ('Trace', 'trace'), ('S', 's'), ('onEnter', 'on_enter')):
+        for (k1, k2) in (('before', 'after'), ('before', 'before'), ('guards', 'unless'), ('around', 'around'), ('after', 'before')):
+            for asy, pay in ((False, False), (True, True), (False, True)):
+                ev_items = ([('payload', ['u32'])] if pay else [])
+                if k1 == k2:
+                    ev_items.append((k1, [h1, h2], True))
+                else:
+                    ev_items += [(k1, [h1], True), (k2, [h2], True)]
+                ev_items.append(('transition', [('from', ['A'], False), ('to', 'B')]))
+                cases.append({'id': f'hookcoll{kk}', 'stream': 'hookcollide', 'feature': (kk % 3 == 0), 'def':
+                              [('name', 'M'), ('dynamic', True)] + ([('async', True)] if asy else []) +
+                              [('initial', 'A'), ('states', [('leaf', 'A', None), ('leaf', 'B', ['u32'])]),
+                               ('events', [('go', ev_items), ('back', [('transition', [('from', ['B'], False), ('to', 'A')])])], True)]})
+                kk += 1
     # every short event name over {a, B, 2, _}: the snake_case rule (validation.rs) and the derived names
     import itertools
     kk = 0
